@@ -129,7 +129,7 @@ def strategy(tier):
 
 
 def budget(tier):
-    return 130 if tier == "quick" else 8000
+    return 130 if tier == "quick" else 5000
 
 
 def classify(case):
